@@ -99,6 +99,7 @@ ParOf(e) ==
     [] e.op = "reshape" -> [d |-> e.d]
     [] e.op = "matmul" -> [ta |-> e.ta, tb |-> e.tb]
     [] e.op = "conv" -> [sr |-> e.sr, sc |-> e.sc]
+    [] e.op \in {"cadd", "cmul", "csq", "cfma"} -> [bw |-> e.bw]
     [] OTHER -> <<>>
 OpName(e) == IF e.op = "scale_l" THEN "scale" ELSE IF e.op = "cost" THEN (IF e.kind = "mse" THEN "mse" ELSE "xent") ELSE e.op
 
@@ -112,8 +113,7 @@ CanonLast(S2) == LET n == Len(S2.nodes) IN [S2 EXCEPT !.nodes[n].t = Canon(n, S2
 JudgeApply(e) ==
   LET op == OpName(e)  par == ParOf(e)
       st == ApplyStatus(S, op, par, e.args)
-  IN IF op \in CustomOps /\ e.bw # AnyTracked(S, e.args) THEN Bad("TOOLERR-custom-op-derivative-flag")
-     ELSE IF st = "unspec" THEN Unspec
+  IN IF st = "unspec" THEN Unspec
      ELSE IF st = "refuse" THEN (IF e.panic THEN JS("", S, dig, <<"refusals">>) ELSE Bad("expected-refusal"))
      ELSE IF op = "sum" /\ par.k = 0 THEN
           (IF e.panic THEN Bad("unexpected-panic")
